@@ -23,7 +23,10 @@ INF = float("inf")
 
 def inst_with(rng, kind, bound, target=5):
     others = [i for i in G.ids_pool(rng, rng.randint(0, 3), big=0.1) if i != target]
-    dvs = [GI.dv(i, rng.choice([1, 2, 3]), GI.rand_bound(rng, 3)) for i in others]
+    # other variables may already be fixed (substituted_value, as partial_evaluate leaves them): they still own their ids
+    fixed = rng.random() < 0.3
+    dvs = [GI.dv(i, rng.choice([1, 2, 3]), GI.rand_bound(rng, 3),
+                 (rng.choice([0.0, 1.0, 2.5]) if fixed and (i == max(others) or rng.random() < 0.5) else None)) for i in others]
     dvs.insert(rng.randint(0, len(dvs)), GI.dv(target, kind, bound, None, GI.meta(rng, "n")))
     obj = ["lin", [[[target, f64(1.0)]], f64(0.0)]]
     return [1, [obj], dvs, [], [], [], [], [], []]
@@ -50,6 +53,13 @@ def gen(rng, tier):
         dl = rng.choice([0.0, 2.0 ** -30, -(2.0 ** -30), 2.0 ** -21, -(2.0 ** -21), 2.0 ** -19])
         du = rng.choice([0.0, 2.0 ** -30, -(2.0 ** -30), 2.0 ** -21, -(2.0 ** -21), -(2.0 ** -19)])
         cases.append({"op": "log_encode", "input": [inst_with(rng, 2, (lo + dl, lo + w + du)), 5], "stream": "near-integer"})
+    # the encoded variable has the SMALLEST id and every larger one is fixed (the fresh ids must still be above them)
+    for w in (1, 2, 3, 6, 7):
+        for nfix in (1, 2, 3):
+            dvs = [GI.dv(5, 2, (0.0, float(w)))] + [GI.dv(5 + k, rng.choice([1, 2, 3]), (0.0, 3.0), float(k % 2)) for k in range(1, nfix + 1)]
+            rng.shuffle(dvs)
+            cases.append({"op": "log_encode", "input": [[1, [["lin", [[[5, f64(1.0)]], f64(0.0)]]], dvs, [], [], [], [], [], []], 5],
+                          "stream": "fixed-above"})
     # other encoded ids than 5 (0, large ids) among variables listed in any order
     for t in (0, 1, 2 ** 32 + 7, 2 ** 62):
         for w in (1, 2, 3, 6):
